@@ -137,8 +137,23 @@ func (d *driver) driveRoots(ntraces, nops int) {
 		// an account to read sectors back with
 		d.exchange(Act{Op: "BeginFund", S: 1, Deps: []Dep{{A: "a1", N: 100000}}, Sf: "ok"}, "", "", "finish")
 		size := func() int { return len(tr.state().Roots) }
+		// in two traces out of three the contract is renewed / refreshed part-way: the appends, frees and
+		// aborts after that work on the renewal while the host still holds the replaced contract
+		renewAt := -1
+		if n%3 != 2 {
+			renewAt = nops/4 + rng.Intn(nops/4+1)
+		}
 		for op := 0; op < nops && !tr.bad; op++ {
 			cur := size()
+			if op == renewAt {
+				if cur < 3 {
+					renewAt++
+				} else {
+					d.exchange(Act{Op: "BeginRenew", S: 1, Kind: pick(rng, "renew", "refresh", "refreshpartial"), Pf: "ok", Cf: "ok", Rf: "ok", NA: 300000000, NC: 200000000},
+						"Round2Renew", "ok", "finish")
+					continue
+				}
+			}
 			switch x := rng.Intn(100); {
 			case x < 40 && cur < 40, cur == 0 && x < 80:
 				k := 1 + rng.Intn(5)
@@ -315,10 +330,10 @@ func (d *driver) driveAccounts(ntraces, nops int) {
 				d.exchange(Act{Op: "BeginRepl", S: 1, Kind: kind, Accs: accs, Target: target, Cf: flaw(rng, 8, cfClasses...), Af: flaw(rng, 4, "ovfLast", "ovfMid")}, "Round2Repl", flaw(rng, 8, sfClasses...), d.stopPoint())
 			case x < 36: // attach
 				var b []Entry
-				for i, k := 0, 1+rng.Intn(2); i < k; i++ {
+				for i, k := 0, 1+rng.Intn(3); i < k; i++ {
 					e := Entry{A: acc(), P: pl(), Vf: "ok"}
 					e.By = e.P
-					switch rng.Intn(12) {
+					switch rng.Intn(14) {
 					case 0:
 						e.By = e.A
 					case 1:
@@ -334,13 +349,27 @@ func (d *driver) driveAccounts(ntraces, nops int) {
 					b = nil
 				}
 				d.exchange(Act{Op: "BeginAttach", S: 1, B: b}, "", "", "finish")
-			case x < 42: // detach
-				e := Entry{A: acc(), P: pl(), Vf: "ok"}
-				e.By = pick(rng, e.A, e.P, e.A, e.P, "x", pl())
-				if rng.Intn(10) == 0 {
-					e.Vf = pick(rng, "expired", "wronghost")
+			case x < 42: // detach: batches of 1..3 entries, most of them over the same pool, so that entries that are
+				// no-ops (never attached, already detached) sit before / after entries that take effect
+				var b []Entry
+				p0 := pl()
+				for i, k := 0, 1+rng.Intn(3); i < k; i++ {
+					e := Entry{A: acc(), P: p0, Vf: "ok"}
+					if rng.Intn(4) == 0 {
+						e.P = pl()
+					}
+					e.By = pick(rng, e.A, e.P, e.P, e.P)
+					switch rng.Intn(14) {
+					case 0:
+						e.By = "x"
+					case 1:
+						e.By = pl()
+					case 2:
+						e.Vf = pick(rng, "expired", "wronghost")
+					}
+					b = append(b, e)
 				}
-				d.exchange(Act{Op: "BeginDetach", S: 1, B: []Entry{e}}, "", "", "finish")
+				d.exchange(Act{Op: "BeginDetach", S: 1, B: b}, "", "", "finish")
 			case x < 62: // read
 				tf, pf := tp()
 				sec := stored[rng.Intn(len(stored))]
